@@ -32,12 +32,12 @@ LEVELS = {'|': 1, '^': 2, '&': 3, '<<': 4, '>>': 4, '+': 5, '-': 5, '*': 6, '/':
 def gen_int(rnd) -> str:
 	c = rnd.randint(0, 9)
 	if c <= 4:
-		return str(rnd.choice([0, 1, 2, 3, 5, 7, 8, 10, 16, 31, 40, 255, 1000, 65536, 123456789, 2 ** 31, 2 ** 40 - 1]))
+		return str(rnd.choice([0, 1, 2, 3, 5, 7, 8, 10, 16, 31, 40, 255, 1000, 65536, 123456789, 2 ** 31, 2 ** 40 - 1, 2 ** 53 + 1, 2 ** 63 - 1]))
 	if c <= 6:
 		return str(rnd.randint(0, 99))
 	if c == 7:
 		return rnd.choice(['1_000', '12_34', '1_0'])
-	v = rnd.choice([0, 1, 15, 16, 255, 0xABCDEF, 2 ** 32, 0xdeadbeef])
+	v = rnd.choice([0, 1, 15, 16, 255, 0xABCDEF, 2 ** 32, 0xdeadbeef, 0x7FFFFFFFFFFFFFFF])
 	return rnd.choice(['0x%x', '0x%X', '0X%x']) % v
 
 
